@@ -1,5 +1,29 @@
 (** C05 — Forbid/Enqueue never run more Jobs of a JobConfig at once than maxConcurrency. *)
-From Furiko Require Import Queue.World Proofs.QueueP.
+From Furiko Require Import Queue.World Proofs.QueueP Proofs.QueueInvP.
+
+(** THE property over histories.  For every history of Job creation, finish, deletion,
+    maxConcurrency edits, clock steps, cache and listener deliveries in any interleaving,
+    injected write failures, conflicts, both reconcilers' passes and restarts (the independent
+    reconciler being invoked only for Jobs without a JobConfig owner, as the informer routes
+    them): whenever a pass starts a Forbid or Enqueue Job, the owned active Jobs in the API
+    just before the start number at most maxConcurrency - 1. *)
+Theorem c05_start_respects_max :
+  forall now m ops w' acts ok armed id,
+    run_ok (init_qworld now m) ops ->
+    let w := qrun_world (init_qworld now m) ops in
+    sync_q w = (w', acts, ok, armed) -> In (QAStart id 0) acts ->
+    exists j wm, In j (queued_jobs w) /\ q_id j = id /\ q_clock wm = q_clock w /\ q_max wm = q_max w /\
+      (q_policy j = PForbid \/ q_policy j = PEnqueue -> acount (qa_jobs wm) + 1 <= max_conc w).
+Proof. exact start_respects_max. Qed.
+Print Assumptions c05_start_respects_max.
+
+(** the invariant behind it: in every reachable world the counter is at least the number of
+    owned active Jobs in the API (it never under-counts) *)
+Theorem c05_counter_dominates :
+  forall now m ops, run_ok (init_qworld now m) ops ->
+    let w := qrun_world (init_qworld now m) ops in acount (qa_jobs w) <= q_counter w.
+Proof. exact counter_dominates. Qed.
+Print Assumptions c05_counter_dominates.
 
 (** Every Forbid/Enqueue Job that a pass starts was admitted at a count a' with
     a' + 1 <= maxConcurrency (default 1), where a' is the active-job counter at that
@@ -71,3 +95,9 @@ Example c05_nonvacuous :
   = [(0, []); (0, []); (0, []); (0, []); (1, [QAStart 1 0]); (1, []); (1, []); (1, []);
      (1, []); (1, []); (0, []); (1, [QAStart 2 0])].
 Proof. vm_compute. reflexivity. Qed.
+
+Example c05_history_nonvacuous :
+  run_ok (init_qworld 100 (Some 1)) ex_ops /\
+  acount (qa_jobs (qrun_world (init_qworld 100 (Some 1)) ex_ops)) = 1%Z /\
+  q_counter (qrun_world (init_qworld 100 (Some 1)) ex_ops) = 1%Z.
+Proof. vm_compute. tauto. Qed.
